@@ -666,6 +666,9 @@ def alphabet_full():
     for kind in ("cp", "mv", "ln", "lns"):
         for sp, dp in PREFIX_PAIRS:
             ops.append(_mk_copy(kind, FA, sp, FA, dp))
+    # re-creation with another count dtype / bin type (content classes, see _klass)
+    ops += [_mk_create(FA, "/", "a", 501), _mk_create(FA, "/", "a", 701), _mk_create(FA, "/a", "a", 502),
+            _mk_create(FB, "/", "a", 503), _mk_create(FA, "/", "r+", 504)]
     return ops
 
 
@@ -683,6 +686,7 @@ def alphabet_reduced():
     for kind in ("mv", "ln", "lns"):
         ops.append(_mk_copy(kind, FA, "/a", FA, "/ab"))
     ops.append(_mk_copy("mv", FA, "/a/b", FA, "/a/bc"))
+    ops += [_mk_create(FA, "/", "a", 505), _mk_create(FA, "/", "a", 705), _mk_create(FA, "/a/b", "a", 506)]
     return ops
 
 
@@ -783,6 +787,12 @@ CORPUS = [
     [_mk_create(FA, "/a", "a", 1), _mk_copy("mv", FA, "/a", FA, "/ab")],
     [_mk_create(FA, "/a/b", "a", 1), _mk_copy("mv", FA, "/a/b", FA, "/a/bc"), _mk_copy("ln", FA, "/a/bc", FA, "/a/b"),
      _mk_copy("lns", FA, "/a", FA, "/ab")],
+    # re-creation at the root in append mode with another count dtype / bin type reads like a fresh creation
+    [_mk_create(FA, "/", "a", 1), _mk_create(FA, "/", "a", 501), _mk_create(FA, "/", "a", 2), _mk_create(FA, "/", "a", 701),
+     _mk_create(FA, "/", "r+", 502), _mk_create(FA, "/a", "a", 503), _mk_create(FA, "/a", "a", 3)],
+    # soft links closing a cycle (the first is created before its target exists): is_cooler answers False
+    [_mk_create(FA, "/a", "a", 1), _mk_copy("lns", FA, "/a/b", FA, "/c"), _mk_copy("lns", FA, "/c", FA, "/a/b")],
+    [_mk_create(FA, "/a", "a", 1), _mk_copy("lns", FA, "/c", FA, "/ab"), _mk_copy("lns", FA, "/ab", FA, "/c")],
     # overwrite truncates the destination file; same-file overwrite is refused
     [_mk_create(FA, "/a", "a", 1), _mk_create(FB, "/c", "a", 2), _mk_copy("cp", FA, "/a", FB, "/a", True),
      _mk_copy("cp", FA, "/a", FA, "/c", True)],
@@ -798,7 +808,14 @@ def cases(tier, rng):
     for s in URI_STRINGS:
         yield "parse_uri", {"s": s}
     for ops in CORPUS:
-        yield "history", {"ops": ops, "rk": True}
+        yield "history", {"ops": ops, "rk": True, "layout": "flat"}
+        if any(o["op"] == "lns" and _files_of(o)[0] != _files_of(o)[1] for o in ops):
+            yield "history", {"ops": ops, "rk": True, "layout": "split"}
+    nlay = [0]
+
+    def lay():
+        nlay[0] += 1
+        return "split" if nlay[0] % 2 else "flat"
     nrk = [0]
 
     def rk():
@@ -806,8 +823,8 @@ def cases(tier, rng):
         return nrk[0] <= 40
     nfull = len(alphabet_full())
     for lo in range(0, nfull, FANCHUNK):
-        yield "errclass", {"init": "I1", "prefix": [], "alphabet": "full", "lo": lo, "hi": lo + FANCHUNK}
-        yield "errclass", {"init": "I2", "prefix": [], "alphabet": "full", "lo": lo, "hi": lo + FANCHUNK}
+        yield "errclass", {"init": "I1", "prefix": [], "alphabet": "full", "lo": lo, "hi": lo + FANCHUNK, "layout": lay()}
+        yield "errclass", {"init": "I2", "prefix": [], "alphabet": "full", "lo": lo, "hi": lo + FANCHUNK, "layout": lay()}
     plan = [("I1", "full", 1), ("I2", "reduced", 1)]
     if thorough:
         plan = [("I1", "full", 1), ("I2", "full", 1), ("I1", "reduced", 2), ("I2", "reduced", 2)]
@@ -815,10 +832,11 @@ def cases(tier, rng):
         n = len(ALPHABETS[alphabet]())
         for pre in _prefixes(init, alphabet, depth):
             for lo in range(0, n, FANCHUNK):
-                yield "fan", {"init": init, "prefix": pre, "alphabet": alphabet, "lo": lo, "hi": lo + FANCHUNK, "rk": rk()}
+                yield "fan", {"init": init, "prefix": pre, "alphabet": alphabet, "lo": lo, "hi": lo + FANCHUNK, "rk": rk(),
+                              "layout": lay()}
     nrk[0] = 0
     for _ in range(1500 if thorough else 160):
-        yield "history", {"ops": _random_history(rng, rng.randint(2, 6)), "rk": rk()}
+        yield "history", {"ops": _random_history(rng, rng.randint(2, 6)), "rk": rk(), "layout": lay()}
 
 
 def nontrivial(name, case):
